@@ -11,6 +11,11 @@ E-enum over a real SoftwareSwitch behind the byte-level connection (mc.env.Switc
     NO_FLOOD, NO_FWD, NO_PACKET_IN, set through real port-mod messages) x output kind x frames to {unicast, broadcast, 01:80:c2:00:00:00 (802.1D; UDP and
     LLC BPDU), :01, :0e, :0f, :10}.
  C. port-mod: every transition config a -> config b through a masked port-mod, read back from a features reply.
+ D. port life-cycle histories (port-mod / delete_port / add_port) before delivery probes.
+ E. value sweeps: one 16-bit word of every checksummed region (IPv4 header, UDP / TCP segment, ICMP message; even and odd
+    lengths), the 802.1Q TCI, (tos, ttl), every payload length up to a full datagram (forwarded, sent to the controller,
+    as a table miss released from its buffer) and every value of the rewrite / max_len arguments run through ALL their
+    values; the frames of a chunk pass through one long-lived switch, whose counters are read back at the end.
 
 Oracle: mc/refs/refpkt.py, a byte-level rewriter/interpreter written from the specification text.  Emissions are
 compared per port, byte for byte, in order; packet-ins are decoded with the independent wire decoder; port counters
@@ -125,7 +130,26 @@ ARGS = [
   ("enq2", ("enqueue", 2, 0)),
 ]
 BUF_MAX = 64                # max_len of the output:CONTROLLER that creates a buffer in the 'buffered' deliveries
-LABELS = dict(ALPHA + ARGS + [("ctl64", ("output", R.OFPP_CONTROLLER, BUF_MAX))])
+# rewrites used by the value sweeps (section E): addresses whose 16-bit words are large in either byte order, so that the
+# one's complement sums of the rewritten headers carry
+HI_SRC, HI_DST = 0xfefdfcfb, 0xfbfcfdfe
+SWEEP_ARGS = [("nw_src_hi", ("set_nw_src", HI_SRC)), ("nw_dst_hi", ("set_nw_dst", HI_DST))]
+DYNAMIC = ("set_tp_src", "set_tp_dst", "set_nw_src", "set_nw_dst", "set_nw_tos", "set_vlan_vid", "set_vlan_pcp")
+
+
+class _Labels (dict):
+  """label -> action tuple.  Besides the fixed labels, "<rewrite>=<hex argument>" (e.g. "set_tp_src=0x1234") names the
+  rewrite with that argument and "ctl=<hex max_len>" an output to the controller; the value sweeps use these."""
+  def __missing__ (self, label):
+    name, eq, arg = label.partition("=")
+    if eq and name in DYNAMIC:
+      return (name, int(arg, 16))
+    if eq and name == "ctl":
+      return ("output", R.OFPP_CONTROLLER, int(arg, 16))
+    raise KeyError(label)
+
+
+LABELS = _Labels(ALPHA + ARGS + SWEEP_ARGS + [("ctl64", ("output", R.OFPP_CONTROLLER, BUF_MAX))])
 OUT_LABELS = tuple(l for l, a in ALPHA + ARGS if a[0] in ("output", "enqueue"))
 
 
@@ -961,7 +985,289 @@ def _work_lifecycle (item):
 
 
 # ---------------------------------------------------------------------------------------------
+# E. value sweeps on a long-lived switch
+# ---------------------------------------------------------------------------------------------
+# Lengths and checksums are arithmetic on the frame's DATA: whether a one's complement sum carries once, twice or not at
+# all, whether a length needs its high byte, whether a segment has a trailing odd byte depends on the values, not on the
+# shape of the frame, and a handful of corpus frames visits a handful of points of that space.  Each sweep below takes one
+# frame shape and lets one 16-bit quantity run through ALL of its 65536 values (every word of a checksummed region is
+# equivalent for the sum, so one swept word per region makes the region's sum visit every residue, with the carries the
+# rest of the region provides; the other bytes are large in either byte order so that carries occur), or lets a length /
+# a rewrite argument run through its whole range.  The frames of one chunk go through ONE switch one after the other
+# (a fresh switch per value would cost more than the forwarding itself); every emission is compared byte for byte with the
+# reference, the port counters of the whole chunk are read back at its end, and a failing value is re-run on a fresh
+# switch through the single-case runner of section A, which also names the violation.
+PAY = bytes((7 * i + 1) & 0xff for i in range(64))
+IP_DH = R.ip4("251.252.253.254")      # destination address of the sweep frames: its words are large in either byte order
+SWEEP_CHUNK = 4096
+LEN_CHUNK = 128
+TCP_MAXPAY, UDP_MAXPAY = 1460, 1472   # what fits a 1500 byte IP datagram
+
+
+def _two (v):
+  return bytes(((v >> 8) & 0xff, v & 0xff))
+
+def _fill (n, fill=None):
+  if fill is not None: return bytes((fill,)) * n
+  return bytes((7 * i + 1) & 0xff for i in range(n))
+
+def _tci (v):
+  return (v >> 13, (v >> 12) & 1, v & 0xfff)
+
+
+def sweep_l4 (proto, v, n, pos, ident=0x3039, tos=0x28, ttl=64, tci=None, fill=None, src=IP_S, dst=IP_DH, tcp_options=b"",
+              opt_pos=None):
+  """IPv4 frame carrying UDP / TCP / ICMP echo with an n byte payload whose bytes pos, pos+1 are the 16 bit value v (or, with
+  opt_pos, whose TCP option bytes opt_pos, opt_pos+1 are)."""
+  pay = _fill(n, fill)
+  if opt_pos is None:
+    pay = pay[:pos] + _two(v) + pay[pos + 2:]
+    assert len(pay) == n
+  else:
+    tcp_options = tcp_options[:opt_pos] + _two(v) + tcp_options[opt_pos + 2:]
+  if proto == 17: seg = R.udp(src, dst, 0x1111, 0x2222, pay)
+  elif proto == 6: seg = R.tcp(src, dst, 0x3333, 0x4444, pay, options=tcp_options)
+  else: seg = R.icmp_echo(0x0102, 7, pay)
+  return R.eth(MAC_DST, MAC_SRC, R.ETH_IP, R.ipv4(src, dst, proto, seg, tos=tos, ident=ident, ttl=ttl), vlan=tci)
+
+
+def _len_frame (proto, n):
+  pay = _fill(n)
+  if proto == 17: seg = R.udp(IP_S, IP_DH, 0x1111, 0x2222, pay)
+  elif proto == 6: seg = R.tcp(IP_S, IP_DH, 0x3333, 0x4444, pay)
+  else: seg = R.icmp_echo(0x0102, 7, pay)
+  return R.eth(MAC_DST, MAC_SRC, R.ETH_IP, R.ipv4(IP_S, IP_DH, proto, seg, tos=0x28))
+
+
+S3 = ("out2", "nw_src_hi", "out3", "tp_dst", "out4")
+TS_OPT = bytes.fromhex("0101" "080a" "00000000" "00000000")     # NOP NOP timestamp; the swept word is the low half of TSval
+
+
+def _h (x): return "%#x" % x
+def _rot (v): return ((v << 5) | (v >> 11)) & 0xffff
+
+# name -> (tier, delivery, number of values, v -> frame, v -> action labels, what is swept)
+SWEEPS = [
+  # -- one 16-bit word of every checksummed region, all 65536 values ---------------------------------------------------------
+  ("udp-even", "q", "flow", 65536, lambda v: sweep_l4(17, v, 16, 14, ident=v, tci=_tci(v)), lambda v: ("out2", "nw_src_hi", "out3"),
+   "tagged IPv4/UDP, 16 byte payload: 802.1Q TCI = IP id = last payload word = v"),
+  ("udp-odd", "q", "flow", 65536, lambda v: sweep_l4(17, v, 5, 3, ident=v), lambda v: ("out2", "tp_src", "out3"),
+   "IPv4/UDP, 5 byte payload: IP id = v, last payload bytes (the second is the trailing odd byte) = v"),
+  ("tcp-even", "q", "flow", 65536, lambda v: sweep_l4(6, v, 12, 10, tos=v >> 8, ttl=v & 0xff), lambda v: ("out2", "tp_dst", "out3"),
+   "IPv4/TCP, 12 byte payload: (IP tos, ttl) = last payload word = v"),
+  ("tcp-odd", "q", "flow", 65536, lambda v: sweep_l4(6, v, 7, 5, ident=v), lambda v: ("out2", "nw_dst", "out3"),
+   "IPv4/TCP, 7 byte payload: IP id = v, last payload bytes (the second is the trailing odd byte) = v"),
+  ("icmp-odd", "q", "flow", 65536, lambda v: sweep_l4(1, v, 23, 21, ident=v), lambda v: ("out2", "nw_src_hi", "out3"),
+   "IPv4/ICMP echo, 23 byte payload: IP id = v, last payload bytes (the second is the trailing odd byte) = v"),
+  # -- every payload length ------------------------------------------------------------------------------------------------------
+  ("len-udp", "q", "flow", UDP_MAXPAY + 1, lambda n: _len_frame(17, n), lambda n: S3, "IPv4/UDP with every payload length 0..%d" % UDP_MAXPAY),
+  ("len-tcp", "q", "flow", TCP_MAXPAY + 1, lambda n: _len_frame(6, n), lambda n: S3, "IPv4/TCP with every payload length 0..%d" % TCP_MAXPAY),
+  ("len-icmp", "q", "flow", UDP_MAXPAY + 1, lambda n: _len_frame(1, n), lambda n: ("out2", "nw_src_hi", "out3", "tos", "out4"),
+   "IPv4/ICMP echo with every payload length 0..%d" % UDP_MAXPAY),
+  ("len-udp-ctl", "q", "flow", UDP_MAXPAY + 1, lambda n: _len_frame(17, n), lambda n: ("ctl", "tp_dst", "out2"),
+   "IPv4/UDP with every payload length 0..%d, also sent to the controller (max_len %d)" % (UDP_MAXPAY, CTL_MAX)),
+  ("len-tcp-miss", "q", "buf-miss", TCP_MAXPAY + 1, lambda n: _len_frame(6, n), lambda n: ("out2",),
+   "IPv4/TCP with every payload length 0..%d as a table miss (miss_send_len %d), then released from its buffer by a packet-out" % (TCP_MAXPAY, MISS)),
+  # -- every value of a rewrite argument (packet-out carrying the frame, in_port 1) ---------------------------------------------
+  ("args-udp", "q", "pout", 65536, lambda v: FR["udp"],
+   lambda v: ("set_tp_src=" + _h(v), "out2", "set_nw_src=" + _h(v << 16 | _rot(v)), "out3"),
+   "frame udp through [set_tp_src v, output:2, set_nw_src (upper half v, lower half v rotated left by 5: each half takes every value), output:3]"),
+  ("args-tcp", "q", "pout", 65536, lambda v: FR["tcp"],
+   lambda v: ("set_tp_dst=" + _h(v), "out2", "set_nw_dst=" + _h(_rot(v) << 16 | v), "out3"),
+   "frame tcp through [set_tp_dst v, output:2, set_nw_dst (upper half v rotated left by 5, lower half v), output:3]"),
+  ("args-vlan", "q", "pout", 4096, lambda v: FR["udp"],
+   lambda v: ("set_vlan_vid=" + _h(v), "out2", "set_vlan_pcp=" + _h(v & 7), "out3", "set_vlan_vid=" + _h(v ^ 0xfff), "out4"),
+   "untagged frame udp through [set_vlan_vid v, output:2, set_vlan_pcp v&7, output:3, set_vlan_vid ~v, output:4], all 4096 ids"),
+  ("args-vlan-tag", "q", "pout", 4096, lambda v: FR["tcp-tag"],
+   lambda v: ("set_vlan_pcp=" + _h(v & 7), "out2", "set_vlan_vid=" + _h(v), "out3", "strip", "set_vlan_pcp=" + _h((v >> 3) & 7), "out4"),
+   "tagged frame tcp-tag through [set_vlan_pcp v&7, output:2, set_vlan_vid v, output:3, strip_vlan, set_vlan_pcp, output:4], all 4096 ids"),
+  ("args-tos", "q", "pout", 256, lambda v: FR[("udp", "tcp-tag", "icmp", "udp-ipopt")[v >> 6]],
+   lambda v: ("set_nw_tos=" + _h((v & 63) << 2), "out2", "nw_src_hi", "out3"),
+   "frames udp, tcp-tag, icmp, udp-ipopt through [set_nw_tos d, output:2, set_nw_src, output:3], all 64 DSCP values"),
+  ("args-ctl", "q", "pout", 512, lambda v: FR[("tcp-tag", "udp-odd")[v >> 8]], lambda v: ("tp_dst", "ctl=" + _h(v & 255), "out2"),
+   "frames tcp-tag (70 bytes), udp-odd (47 bytes) through [set_tp_dst, output:CONTROLLER max_len m, output:2], every m in 0..255"),
+  # -- thorough tier: other positions of the swept word, other carry counts, options, tagged argument sweeps -----------------------
+  ("udp-even-3", "t", "flow", 65536, lambda v: sweep_l4(17, v, 16, 14, ident=v, tci=_tci(v)), lambda v: S3,
+   "as udp-even, through three stages"),
+  ("tcp-even-3", "t", "flow", 65536, lambda v: sweep_l4(6, v, 12, 10, tos=v >> 8, ttl=v & 0xff), lambda v: S3,
+   "as tcp-even, through three stages"),
+  ("icmp-even", "t", "flow", 65536, lambda v: sweep_l4(1, v, 24, 22, ident=v), lambda v: ("out2", "nw_dst_hi", "out3"),
+   "IPv4/ICMP echo, 24 byte payload: IP id = last payload word = v"),
+  ("udp-first-word", "t", "flow", 65536, lambda v: sweep_l4(17, v, 16, 0, tos=v >> 8 & 0xfc, ttl=v & 0xff), lambda v: ("out2", "nw_dst", "out3", "tos", "out4"),
+   "IPv4/UDP, 16 byte payload: (DSCP, ttl) = first payload word = v"),
+  ("udp-ff", "t", "flow", 65536, lambda v: sweep_l4(17, v, 64, 30, ident=v, fill=0xff, src=R.ip4("255.255.255.254")), lambda v: S3,
+   "IPv4/UDP from 255.255.255.254, 64 payload bytes 0xff (many carries): IP id = payload word 15 = v"),
+  ("udp-zero", "t", "flow", 65536, lambda v: sweep_l4(17, v, 64, 62, ident=v, fill=0, dst=IP_D), lambda v: ("out2", "tp_dst", "out3"),
+   "IPv4/UDP between 10.x addresses, 64 payload bytes 0x00 (few carries): IP id = last payload word = v"),
+  ("udp-odd-long", "t", "flow", 65536, lambda v: sweep_l4(17, v, 63, 61, ident=v, fill=0xff), lambda v: ("out2", "nw_src_hi", "out3"),
+   "IPv4/UDP, 63 payload bytes 0xff: IP id = v, last payload bytes = v"),
+  ("tcp-first-word", "t", "flow", 65536, lambda v: sweep_l4(6, v, 12, 0, ident=v, tci=(5, 0, 0x234)), lambda v: ("out2", "nw_dst", "out3", "tp_src", "out4"),
+   "tagged IPv4/TCP, 12 byte payload: IP id = first payload word = v"),
+  ("tcp-ts-option", "t", "flow", 65536, lambda v: sweep_l4(6, v, 7, 0, ident=v, tcp_options=TS_OPT, opt_pos=6), lambda v: S3,
+   "IPv4/TCP with a timestamp option, 7 byte payload: IP id = low half of TSval = v"),
+  ("tcp-ff", "t", "flow", 65536, lambda v: sweep_l4(6, v, 64, 0, ident=v, fill=0xff, src=R.ip4("255.255.255.254")), lambda v: S3,
+   "IPv4/TCP from 255.255.255.254, 64 payload bytes 0xff: IP id = first payload word = v"),
+  ("icmp-ff", "t", "flow", 65536, lambda v: sweep_l4(1, v, 64, 32, ident=v, fill=0xff), lambda v: ("out2", "tos", "out3"),
+   "IPv4/ICMP echo, 64 payload bytes 0xff: IP id = payload word 16 = v"),
+  ("args-udp-tag", "t", "pout", 65536, lambda v: FR["udp-tag"],
+   lambda v: ("set_nw_dst=" + _h(0xc6330000 | v), "out2", "set_tp_dst=" + _h(v), "out3", "set_nw_src=" + _h(v << 16 | 0x024d), "out4"),
+   "frame udp-tag through [set_nw_dst 198.51.v, output:2, set_tp_dst v, output:3, set_nw_src v.2.77, output:4]"),
+  ("args-tcp-odd", "t", "pout", 65536, lambda v: FR["tcp-odd"],
+   lambda v: ("set_nw_src=" + _h(0xc0000000 | v), "out2", "set_tp_src=" + _h(v), "out3", "set_nw_dst=" + _h(v << 16 | 0x6409), "out4"),
+   "frame tcp-odd through [set_nw_src 192.0.v, output:2, set_tp_src v, output:3, set_nw_dst v.100.9, output:4]"),
+  ("args-icmp", "t", "pout", 65536, lambda v: FR["icmp"],
+   lambda v: ("set_nw_src=" + _h(0xc0000000 | v), "out2", "set_nw_dst=" + _h(v << 16 | 0x6409), "out3"),
+   "frame icmp through [set_nw_src 192.0.v, output:2, set_nw_dst v.100.9, output:3]"),
+]
+SWEEP = dict((x[0], x) for x in SWEEPS)
+FR = {}                     # corpus frames by name (filled by the workers)
+
+
+def sweep_items (quick):
+  items = []
+  for name, tier, mode, n, fr, lab, what in SWEEPS:
+    if quick and tier != "q": continue
+    step = LEN_CHUNK if name.startswith("len-") else SWEEP_CHUNK
+    for lo in range(0, n, step):
+      items.append(("sweep", name, lo, min(n, lo + step)))
+  return items
+
+
+def _sweep_case_name (name, v):
+  return "%s[%#x]" % (name, v)
+
+
+def diagnose (name, v, frame, labels, mode):
+  """A value that failed on the long-lived switch, on a fresh one.  Returns (violations, replay data) - the simplest of:
+  one of the frames the list should have emitted, merely forwarded; a 1-minimal sub-list; the case as it is - or None if
+  a fresh switch handles the case correctly."""
+  fname = _sweep_case_name(name, v)
+  m = mode
+  bad = run_actions_case({fname: frame}, fname, m, labels)[0]
+  if not bad: return None
+  data = dict(kind="actions", frame=fname, frame_hex=frame.hex(), mode=m, actions=list(labels))
+  if any(":raises:" in k for k, w in bad): return bad, data
+  # is it the rewritten frame that cannot be re-serialised (then forwarding it alone fails as well)?
+  if any(BEFORE_RELEASE in w for k, w in bad): return bad, data       # the table-miss packet-in of a buffered delivery
+  ev, final = R.run_actions(frame, [LABELS[l] for l in labels], IN, PORTS0)
+  seen = []
+  for e in ev:
+    if e[0] == "out" and e[2] not in seen: seen.append(e[2])
+  for i, w in enumerate(seen):
+    n2 = fname if w == frame else "%s>emission%d" % (fname, i)
+    b2 = run_actions_case({n2: w}, n2, "flow", ("out2",))[0]
+    if b2: return b2, dict(kind="actions", frame=n2, frame_hex=w.hex(), mode="flow", actions=["out2"])
+  mlabels, mbad = minimise({fname: frame}, fname, m, labels, {})
+  if mbad: return mbad, dict(data, actions=list(mlabels))
+  return bad, data
+
+
+def run_sweep_chunk (name, lo, hi, rep=None, stop_at_first=False):
+  """Values lo..hi-1 of sweep `name` through one switch.  Returns [(key, what, replay data)]."""
+  _, tier, mode, n, mkframe, mklabels, what = SWEEP[name]
+  out = []
+  sigkeys = {}              # raw failure signature -> (keys, number of diagnoses made)
+  sw = None
+  seg_lo = lo
+  def segment_end (sw, upto):
+    """Port counters of everything the current switch has handled."""
+    if sw is None or upto == seg_lo: return
+    obs = sw.obs
+    e = Exp(PORTS0)
+    e.rx = {IN: set([(upto - seg_lo, seg_rx[0])])} if mode != "pout" else {}
+    sw.port_stats()
+    if obs.raised is not None:
+      out.append(("%s:counters:raises:%s" % (PID, site_of(obs.raised)), "sweep %s values %#x..%#x through one switch: port-stats request raised %r"
+                  % (name, seg_lo, upto - 1, obs.raised), dict(kind="sweep", sweep=name, lo=seg_lo, hi=upto)))
+      return
+    for r in check_counters(e, obs):
+      out.append(("%s:counters:%s" % (PID, r["field"]), "sweep %s values %#x..%#x through one switch: %s" % (name, seg_lo, upto - 1, r["what"]),
+                  dict(kind="sweep", sweep=name, lo=seg_lo, hi=upto)))
+  seg_rx = [0]
+  for v in range(lo, hi):
+    frame = mkframe(v)
+    labels = mklabels(v)
+    if sw is None:
+      sw = Sw(); seg_lo = v; seg_rx[0] = 0
+      if mode == "flow":
+        sw.feed(W.flow_mod(sw.nxid(), W.match_fields(in_port=IN), W.OFPFC_ADD, encode(labels)))
+    obs = sw.obs
+    o0, p0 = len(obs.out), len(obs.pins)
+    if mode == "buf-miss":
+      # table miss -> buffered packet-in -> packet-out naming the buffer id and carrying the action list
+      exp = buffered_expectation(frame, mode, labels)[0]
+      sw.rx(frame, IN)
+      if obs.raised is None and len(obs.pins) == p0 + 1 and obs.pins[p0]["buffer_id"] != W.NO_BUFFER:
+        sw.feed(W.packet_out(sw.nxid(), encode(labels), b"", buffer_id=obs.pins[p0]["buffer_id"], in_port=IN))
+    else:
+      exp = expect_actions(frame, labels, IN, PORTS0)
+      if mode == "flow": sw.rx(frame, IN)
+      else: sw.feed(W.packet_out(sw.nxid(), encode(labels), frame, in_port=IN))
+    seg_rx[0] += len(frame)
+    if rep is not None:
+      rep.evaluations += 1
+    got = {}
+    for p, f in obs.out[o0:]: got.setdefault(p, []).append(f)
+    want = dict((p, [f for f, l in fl]) for p, fl in exp.per_port.items() if fl)
+    if rep is not None and (v & 15) == 0:
+      rep.outcome((name, tuple((p, digest(f)) for p, f in obs.out[o0:]),
+                   tuple((q["reason"], q["total_len"], digest(q["data"])) for q in obs.pins[p0:])))
+    step = None
+    if got == want and obs.raised is None and not obs.errors and not obs.garbled:
+      if not exp.pins and len(obs.pins) == p0: continue
+      step = Obs(); step.out = obs.out[o0:]; step.pins = obs.pins[p0:]
+      if not compare(exp, step): continue
+    # ---- something is wrong with this value
+    if obs.raised is not None:
+      sig = ("raises", site_of(obs.raised))
+    else:
+      if step is None:
+        step = Obs(); step.out = obs.out[o0:]; step.pins = obs.pins[p0:]
+      sig = tuple((r["clause"], r.get("port"), r.get("layers"), r.get("dir"), r.get("sub")) for r in compare(exp, step))
+      sig += (bool(obs.errors), obs.garbled)
+    known = sigkeys.get(sig)
+    where = "sweep %s (%s), value %#x" % (name, what, v)
+    if known is None or known[1] < 3:
+      d = diagnose(name, v, frame, labels, mode)
+      if d is None:
+        if sig[0] == "raises": short = "raises:" + sig[1]
+        elif isinstance(sig[0], tuple): short = ":".join(str(x) for x in (sig[0][0],) + sig[0][2:] if x is not None)
+        else: short = "error-reply" if obs.errors else "wire"
+        keys = [("%s:long-lived-switch:%s" % (PID, short),
+                 "handled correctly by a fresh switch, but not as value number %d through one switch" % (v - seg_lo + 1))]
+        data = dict(kind="sweep", sweep=name, lo=seg_lo, hi=v + 1)
+      else:
+        keys, data = d
+      sigkeys[sig] = (keys, (known[1] if known else 0) + 1, data)
+    else:
+      keys, data = known[0], known[2]       # same failure signature as three diagnosed values of this chunk: counted under their keys
+    for k, w in keys:
+      out.append((k, "%s: %s" % (where, w), data))
+    if stop_at_first: return out
+    sw = None                # continue with a fresh switch (the counters of this one are not read)
+  segment_end(sw, hi)
+  return out
+
+
+def _work_sweep (item):
+  from mc.env import boot
+  boot()
+  name, lo, hi = item
+  FR.update(dict(corpus()))
+  rep = Report(PID, "model_checking")
+  for k, what, data in run_sweep_chunk(name, lo, hi, rep):
+    rep.violation(k, what, data)
+  rep.transitions += rep.evaluations + 2
+  if lo == 0:
+    _, tier, mode, n, mkframe, mklabels, what = SWEEP[name]
+    rep.sample(dict(sweep=name, swept=what, values=n, delivered_as=mode, actions=list(mklabels(1)), frame_for_value_1=mkframe(1).hex()))
+  rep.state_count = rep.evaluations
+  return rep
+
+
+# ---------------------------------------------------------------------------------------------
 def _work (item):
+  if item[0] == "sweep": return _work_sweep(item[1:])
   if item[0] == "lifecycle": return _work_lifecycle(item[1:])
   if item[0] == "ports": return _work_ports(item[1:])
   if item[0] == "portmod": return _work_portmod(item[1:])
@@ -1017,8 +1323,10 @@ def run (cfg):
     n = max(1, cfg.workers * 4)
     for i in range(n):
       if hs[i::n]: items.append(("lifecycle", tuple(hs[i::n])))
+  if only in (None, "sweeps"):
+    items += sweep_items(cfg.quick)
   # big items first so the pool drains evenly
-  items.sort(key=lambda it: (0 if it[0] == "lists" and it[3] is not None else 1, repr(it)))
+  items.sort(key=lambda it: (0 if it[0] == "sweep" else 1 if it[0] == "lists" and it[3] is not None else 2, repr(it)))
   n_alpha = len(ALPHA)
   BUF_RULE = ("flow-created buffer + packet-out length <=%d for %s frames; miss-created buffer, flow-mod release, "
               "packet-out-created and rewrite-before-buffer variants length <=%d, all frames"
@@ -1036,14 +1344,21 @@ def run (cfg):
               "D: every history of <=%d operations on port 2 over {port-mod set/clear PORT_DOWN, NO_FWD, NO_FLOOD; delete_port; add_port of "
               "the returned port object} (port-mods on the removed port must be refused), then features reply and delivery probes "
               "output:2 / enqueue:2 / FLOOD / ALL / IN_PORT(frame entering on 2), each as packet-out and as flow entry, then port stats. "
-              "One fresh switch per case; cases are distinct as (frame, delivery, action list) / (configs, kind, delivery); "
+              "E: value sweeps, every value of each through one switch per chunk of %d (%d for lengths), every emission compared, "
+              "port counters read back per chunk, failing values re-run alone on a fresh switch: %s. "
+              "One fresh switch per case in A-D; cases are distinct as (frame, delivery, action list) / (configs, kind, delivery); "
               "distinct outcomes = distinct (case class, emitted (port, frame) sequence, packet-ins, verdict)"
               % (L_main, n_alpha, ",".join(l for l, a in ALPHA), ",".join(MAIN_FRAMES), L_none, L_extra, ",".join(EXTRA_FRAMES),
                  len(argument_lists("pout")), len(fixed_long_lists("pout")), BUF_RULE,
                  "pairs with at least one side in {none, one bit, all bits}" if cfg.quick else "full 64x64 product",
-                 ",".join(PORT_KINDS), "64 x 8" if cfg.quick else "64 x 64", L_life))
+                 ",".join(PORT_KINDS), "64 x 8" if cfg.quick else "64 x 64", L_life, SWEEP_CHUNK, LEN_CHUNK,
+                 "; ".join("%s = %s, %d values, %s [%s]" % (x[0], x[6], x[3], {"flow": "flow entry", "pout": "packet-out", "buf-miss": "buffer release"}[x[2]],
+                                                              ",".join(l.split("=")[0] for l in x[5](1)))
+                           for x in SWEEPS if x[1] == "q" or not cfg.quick)))
   rep.bound = dict(list_length=L_main, list_length_extra_frames=L_extra, list_length_in_port_none=L_none, alphabet=n_alpha,
-                   frames=len(MAIN_FRAMES) + len(EXTRA_FRAMES), ports=NPORTS, port_history_depth=L_life)
+                   frames=len(MAIN_FRAMES) + len(EXTRA_FRAMES), ports=NPORTS, port_history_depth=L_life,
+                   sweeps=len([x for x in SWEEPS if x[1] == "q" or not cfg.quick]),
+                   sweep_values=sum(x[3] for x in SWEEPS if x[1] == "q" or not cfg.quick))
   rep.assumptions = [
     "corpus frames carry valid lengths and checksums, present UDP checksums, zero ECN bits; set_nw_tos arguments have zero ECN bits",
     "enqueue on a switch without queues behaves as output to the named port (what the switch documents)",
@@ -1056,6 +1371,10 @@ def run (cfg):
     "unspecified and therefore not asserted: acceptance of frames arriving on a PORT_DOWN port; whether NO_PACKET_IN silences output:CONTROLLER; "
     "whether frames refused by NO_RECV/NO_RECV_STP count as received",
     "IP/TCP checksum 0x0000 and 0xffff are treated as equal (did not occur)",
+    "value sweeps (E): the switch is not renewed between the values of a chunk (it is after a failing value); every swept frame has "
+    "valid lengths and checksums built by the reference; one swept 16-bit word per checksummed region stands for every word of it "
+    "(the sum is commutative) - the thorough tier moves the word and changes the number of carries the other words provide; "
+    "frames whose set_nw_tos is swept have zero ECN bits; VLAN ids are swept over 0..4095, DSCP over its 64 values",
   ]
   for r in pmap(_work, items, cfg.workers, seed=cfg.seed):
     rep.merge(r)
@@ -1072,7 +1391,17 @@ def replay (cfg, data):
   boot()
   frames = dict(corpus())
   k = data.get("kind")
-  if k == "actions":
+  FR.update(frames)
+  if k == "actions" and "frame_hex" in data:
+    frames[data["frame"]] = bytes.fromhex(data["frame_hex"])
+  if k == "sweep":
+    bad3 = run_sweep_chunk(data["sweep"], data["lo"], data["hi"])
+    x = SWEEP[data["sweep"]]
+    lines = ["sweep %s (%s): values %#x..%#x, one after the other through one switch, delivered as %s with actions [%s]"
+             % (x[0], x[6], data["lo"], data["hi"] - 1, x[2], ",".join(x[5](data["lo"]))),
+             "first frame %s" % x[4](data["lo"]).hex(), "last frame %s" % x[4](data["hi"] - 1).hex()]
+    bad = [(key, what) for key, what, d in bad3]
+  elif k == "actions":
     labels = tuple(data["actions"])
     bad, summary, calls = run_actions_case(frames, data["frame"], data["mode"], labels)
     frame = frames[data["frame"]]
